@@ -104,7 +104,7 @@ def drill(ids, all_checks):
         d = os.path.join(sd, i)
         meta = json.load(open(os.path.join(d, 'meta.json')))
         prop = meta['property']
-        props = claimed if all_checks else ([prop] if prop in claimed else [])
+        props = (affected(claimed, os.path.join(d, 'patch.diff'))[0] if all_checks else ([prop] if prop in claimed else []))
         try:
             rc, out = sh(['git', 'apply', os.path.join(d, 'patch.diff')], cwd=R)
             if rc != 0:
@@ -139,6 +139,28 @@ def drill(ids, all_checks):
     return 1 if bad else 0
 
 
+def affected(claimed, patch):
+    """the checks whose verdict can depend on the files a patch touches: a check is a deterministic function of the facts of the units it loads
+    (evidence/<P>.json coverage.units_parsed, recorded by the engine) and, for C13/C14, of the schema compiler it builds.  A header change reaches every unit."""
+    touched = set()
+    for ln in open(patch):
+        if ln.startswith('+++ b/') or ln.startswith('--- a/'):
+            touched.add(ln[6:].strip())
+    if any(t.startswith('include/') or t.endswith(('.hpp', '.h')) for t in touched):
+        return list(claimed), touched
+    out = []
+    for p in claimed:
+        try:
+            units = set(json.load(open(os.path.join(V, 'evidence', p + '.json')))['coverage']['units_parsed'])
+        except Exception:
+            units = None
+        if units is None or units & touched:
+            out.append(p)
+        elif p in ('C13', 'C14') and any(t.startswith('compiler/') or t in ('runtime/xml.cpp', 'runtime/f8utils.cpp') for t in touched):
+            out.append(p)
+    return out, touched
+
+
 def refdrill(ids):
     """behaviour-preserving refactorings under /verif/seeded/refactor/<id>/patch.diff: apply, run EVERY check, expect exit 0 (2 = gave up loudly, tolerated and
     counted; 1 = false alarm)"""
@@ -169,17 +191,22 @@ def refdrill(ids):
                 keys = [ln.split('] ')[0].split('[')[-1] for ln in out.splitlines() if ': [R' in ln]
                 broken = [ln for ln in out.splitlines() if ln.startswith('ANALYSIS-BROKEN')]
                 return p, {'exit': rc, 'reported': sorted(set(keys)), 'broken': broken[:1]}
-            first = [p for p in ('C13', 'C14', 'C01') if p in claimed]       # generated sources and the shared units are built once, sequentially
+            todo, touched = affected(claimed, os.path.join(d, 'patch.diff'))
+            for p in claimed:
+                if p not in todo:
+                    row[p] = {'exit': 0, 'reported': [], 'broken': [], 'skipped': 'loads no unit the patch touches'}
+            first = [p for p in ('C13', 'C14', 'C01') if p in todo]       # generated sources and the shared units are built once, sequentially
             for p in first:
                 row[p] = one(p)[1]
             with ThreadPoolExecutor(max_workers=6) as ex:
-                for p, r in ex.map(one, [p for p in claimed if p not in first]):
+                for p, r in ex.map(one, [p for p in todo if p not in first]):
                     row[p] = r
         finally:
             sh('git checkout -- .', cwd=R)
         alarms = {p: r['reported'] for p, r in row.items() if r['exit'] == 1}
         gaveup = {p: r['broken'] for p, r in row.items() if r['exit'] == 2}
-        results[i] = {'false_alarms': alarms, 'gave_up': gaveup, 'silent': sorted(p for p, r in row.items() if r['exit'] == 0)}
+        results[i] = {'false_alarms': alarms, 'gave_up': gaveup, 'silent': sorted(p for p, r in row.items() if r['exit'] == 0 and not r.get('skipped')),
+                      'not_run_units_untouched': sorted(p for p, r in row.items() if r.get('skipped')), 'touched': sorted(touched)}
         print('%-12s false alarms: %s   gave up (exit 2): %s' % (i, alarms or 'none', sorted(gaveup) or 'none'), flush=True)
         json.dump(results, open(resf, 'w'), indent=1, sort_keys=True)
     return 0
